@@ -40,7 +40,7 @@ explain_exprs = D.explain_exprs
 shrink_candidates = D.shrink_candidates
 distribution = D.distribution
 
-W = dict(call=34, burst=6, adv=26, fin=8, **{'yield': 20}, **{'raise': 4}, junk=2)
+W = dict(call=34, chain=8, burst=6, adv=26, fin=8, **{'yield': 20}, **{'raise': 4}, junk=2)
 
 
 def corpus():
@@ -61,6 +61,14 @@ def corpus():
     # retention deadline equal to a batch deadline (tie; commutes)
     out.append(G.mk(dict(c, rt=10, mbs=3), [['call', 1, None], ['adv', 10], ['yield', 0, 1, 'v', 1], ['call', 2, None],
                                             ['adv', 10], ['call', 1, None], ['adv', 10], ['fin', 1], ['fin', 2]]))
+    # a task that calls again in the continuation of its answer: retention 0 -> nothing is remembered, the
+    # second call creates a new item; retention > 0 -> answered at once from the window, the chain runs on
+    out.append(G.mk(dict(c, rt=0), [['chain', 1, None, 2], ['adv', 10], ['yield', 0, 1, 'v', 5], ['adv', 10],
+                                    ['yield', 1, 1, 'e', 6], ['adv', 10], ['fin', 2]]))
+    out.append(G.mk(c, [['chain', 1, None, 2], ['call', 1, None], ['adv', 10], ['yield', 0, 1, 'v', 5], ['adv', 20],
+                        ['call', 1, None], ['adv', 10], ['fin', 1]]))
+    out.append(G.mk(dict(c, rt=0, mbs=3), [['chain', 1, None, 1], ['chain', 2, None, 1], ['chain', 1, None, 1],
+                                           ['adv', 10], ['fin', 0], ['adv', 10], ['raise', 1, 4]]))
     # the decorator form forwards retention_timeout
     out.append(G.mk(dict(c, deco=True), [['call', 1, None], ['adv', 10], ['yield', 0, 1, 'v', 5], ['adv', 19],
                                          ['call', 1, None], ['adv', 1], ['call', 1, None], ['adv', 10], ['fin', 1]]))
@@ -70,6 +78,8 @@ def corpus():
 def _alphabet():
     def alpha(m, evs):
         out = [['call', 0, None], ['call', 5, 0], ['call', 1, None]]
+        if (m.cfg['rt'] == 0 or m.cfg['conc'] == 1) and not any(e[0] == 'chain' for e in evs):
+            out.append(['chain', 0, None, 1])
         ds = [d for d in m.deadlines() if d > m.now]
         if ds and (not evs or evs[-1][0] != 'adv'):
             gap = ds[0] - m.now
